@@ -216,8 +216,8 @@ pub fn add_raw(sh: &shell::Shell, line: &str, status: i32,
         status,
         tsb,
         tse,
-        sh.session_id,
-        sh.current_dir,
+        str::replace(&sh.session_id, "'", "''"),
+        str::replace(&sh.current_dir, "'", "''"),
     );
     match conn.execute(&sql, []) {
         Ok(_) => {}
